@@ -37,6 +37,11 @@ fn render_z(r: &DateTimeRange<DateTime<Tz>>) -> String {
 
 pub fn build(e: &str, c: &Ctx) -> Result<AnyOh, String> {
     let base = OpeningHours::parse(e).map_err(|err| format!("parse error: {err}"))?;
+    build_from(base, c)
+}
+
+/// attach a context to an already parsed expression (the expression Arc is shared)
+pub fn build_from(base: OpeningHours, c: &Ctx) -> Result<AnyOh, String> {
     Ok(match c {
         Ctx::Default => AnyOh::N(base),
         Ctx::Holidays(cc) => {
@@ -181,6 +186,25 @@ fn eval_inner(op: &Op, pre: Option<(&Shared, &[(String, Ctx)])>, chans: Option<&
             }
             Err(m) => m,
         },
+        Op::Recontext { e, c1, c2, t } => match OpeningHours::parse(e) {
+            Ok(base) => {
+                let sn = |v: &Result<AnyOh, String>| match v {
+                    Ok(oh) => format!("{} {}", oh.state(*t), oh.next_change(*t)),
+                    Err(m) => m.clone(),
+                };
+                let v1 = build_from(base.clone(), c1);
+                let v2 = build_from(base.clone(), c2);
+                drop(base);
+                let a = sn(&v1);
+                let b = sn(&v2);
+                let a2 = sn(&v1);
+                format!("{a} | {b} | {a2}")
+            }
+            Err(err) => {
+                let m = format!("parse error: {err}");
+                format!("{m} | {m} | {m}")
+            }
+        },
         Op::Shared { i, t } => match pre {
             Some((sh, _)) => match &sh[*i as usize % sh.len()] {
                 Ok(oh) => format!("{} {}", oh.state(*t), oh.next_change(*t)),
@@ -264,8 +288,22 @@ fn eval_inner(op: &Op, pre: Option<(&Shared, &[(String, Ctx)])>, chans: Option<&
     }
 }
 
-/// The sequential operation whose result a (possibly cross-thread) operation must reproduce.
-pub fn reference_op(op: &Op, prebuilt: &[(String, Ctx)]) -> Op {
+/// The sequential operations whose results (joined by " | ") a (possibly
+/// cross-thread, possibly compound) operation must reproduce. Compound
+/// operations are referred to *independently built* values, so that state
+/// leaking between the parts cannot hide in the reference.
+pub fn reference_ops(op: &Op, prebuilt: &[(String, Ctx)]) -> Vec<Op> {
+    match op {
+        Op::Recontext { e, c1, c2, t } => vec![
+            Op::StateNext { e: e.clone(), c: c1.clone(), t: *t },
+            Op::StateNext { e: e.clone(), c: c2.clone(), t: *t },
+            Op::StateNext { e: e.clone(), c: c1.clone(), t: *t },
+        ],
+        other => vec![reference_op(other, prebuilt)],
+    }
+}
+
+fn reference_op(op: &Op, prebuilt: &[(String, Ctx)]) -> Op {
     match op {
         Op::Shared { i, t } => {
             let (e, c) = &prebuilt[*i as usize % prebuilt.len()];
